@@ -918,7 +918,7 @@ def partial_case(haps, geom, dropped, host, target, bpt, rounding, rng, n, cli=T
     def whole(sc):
         return pg.pieces_of(sc, bpt, "floor", ())[0]
 
-    chrom_len = (1000, 900, 800, 700, 650, 600)
+    chrom_len = (400, 300, 250, 200, 180, 160)
     plan = []
     for j, h in enumerate(order):
         sc = new_scaffold(h, [chrom_len[j]])
@@ -962,30 +962,37 @@ def partial_cases(tier, rng):
     sequence absent from the map is treated as contaminant): every geometry of PARTIAL_GEOMS x every non-empty proper subset
     of its contigs absent from the map (leading, middle, trailing contigs; dropped pieces, and tails shorter than a texel
     that PretextView rounds away) x every place for the rest of the scaffold (PARTIAL_HOSTS) in maps of 0, 1 or 2 haplotypes.
-    quick: Target mode three times out of four, number of haplotypes / texel size (1, 10) / rounding rotate, every second case
-    through the command line; thorough: Target mode on and off x 0-2 haplotypes x texel sizes 1, 10, 33.3 x floor/ceil, all
-    through the command line, PLUS seeded geometries (2-5 contigs of 2-400 bp, seeded gaps, seeded absent subset).
+    quick: Target mode three times out of four, number of haplotypes / texel size (1, 10) / rounding rotate, every fourth case
+    through the command line; thorough: Target mode x 0-2 haplotypes x texel sizes 1, 10, 33.3 x floor/ceil plus one of these
+    without Target mode, every seventh through the command line, PLUS 2000 seeded geometries (2-5 contigs of 2-400 bp, seeded
+    gaps, seeded absent subset, Target mode three times out of four).
     """
     quick = tier == "quick"
-    n = 0
+    n = m = 0
     for geom in PARTIAL_GEOMS:
         for dropped in proper_subsets(len(geom[0])):
             for host in PARTIAL_HOSTS:
                 if quick:
                     n += 1
                     combos = [((), ("Hap1",), ("Hap1", "Hap2"))[n % 3]], [n % 4 != 0], [(10.0, 1.0)[(n // 3) % 2]], [("floor", "ceil")[(n // 2) % 2]]
+                    full = list(itertools.product(*combos))
                 else:
-                    combos = [(), ("Mat",), ("Hap1", "Hap2")], [True, False], [1.0, 10.0, 33.3], ["floor", "ceil"]
-                for haps, target, bpt, rounding in itertools.product(*combos):
+                    # at 1 bp per texel nothing is rounded: one rounding
+                    m += 1
+                    grid = [(1.0, ("floor", "ceil")[m % 2]), (10.0, "floor"), (10.0, "ceil"), (33.3, "floor"), (33.3, "ceil")]
+                    full = [(haps, True, bpt, rounding) for haps in ((), ("Mat",), ("Hap1", "Hap2")) for bpt, rounding in grid]
+                    # without Target mode (control: absent contigs go by their scaffold's name): one combination in rotation
+                    full.append((full[m % len(full)][0], False, (1.0, 10.0, 33.3)[m % 3], ("floor", "ceil")[m % 2]))
+                for haps, target, bpt, rounding in full:
                     n += not quick
-                    case = partial_case(haps, geom, dropped, host, target, bpt, rounding, rng, n, cli=not quick or n % 2 == 0)
+                    case = partial_case(haps, geom, dropped, host, target, bpt, rounding, rng, n, cli=n % (4 if quick else 7) == 1)
                     if case is None and quick:
-                        case = partial_case(haps, geom, dropped, host, target, 1.0, rounding, rng, n, cli=n % 2 == 0)
+                        case = partial_case(haps, geom, dropped, host, target, 1.0, rounding, rng, n, cli=n % 4 == 1)
                     if case is not None:
                         yield case
     if quick:
         return
-    for i in range(6000):
+    for i in range(2000):
         k = rng.randint(2, 5)
         lengths = tuple(rng.choice((2, 7, 40, 90, 150, 400)) for _ in range(k))
         gaps = tuple(rng.choice((None, (1, "contig"), (10, "scaffold"), (200, "scaffold"))) for _ in range(k - 1))
